@@ -74,7 +74,9 @@ func candidates(n *Node) []*Node {
 		out = append(out, c)
 	}
 	for _, ch := range n.Children {
-		hoist(ch)
+		if !ch.Bare {
+			hoist(ch)
+		}
 	}
 	if n.Embedded != nil {
 		hoist(n.Embedded)
